@@ -412,4 +412,57 @@ example :
     inferT [] [(['x', 'o'], .list opt)] (.listComp (.var ['z']) [['z']] (.var ['x', 'o']) .true_) = .ok (.list opt) := by
   decide +kernel
 
+/-- The type-argument POSITION decides which actual type a type variable is bound to (68f934e; before, `_find_actual_path`
+    compared depths only: `val(m: dict[str, T]) -> T` was typed by the FIRST argument of the value's type), and `None` given for a
+    `T | None` parameter binds nothing (`wrap(o: T | None, d: T) -> list[T]`, `wrap(None, 1)` was `list<None>`). The generic
+    functions are the former witnesses of the findings `template-nonfirst-type-argument` / `optional-template-none-argument`. -/
+example :
+    let T : Ty := .tvar ['T']
+    let val : Func := ⟨['v', 'a', 'l'], false, .cons (.dict .str T) .nil, T⟩
+    let snd : Func := ⟨['s', 'n', 'd'], false, .cons (.tuple (.cons .int (.cons T .nil))) .nil, T⟩
+    let inner : Func := ⟨['i', 'n'], false, .cons (.list (.dict .str T)) .nil, T⟩
+    let valO : Func := ⟨['v', 'o'], false, .cons (.union (.cons (.dict .str T) (.cons .none .nil))) (.cons T .nil), T⟩
+    let deep : Func := ⟨['d', 'p'], false, .cons (.dict .str (.union (.cons T (.cons .none .nil)))) .nil, T⟩
+    let wrap : Func := ⟨['w', 'r'], false, .cons (.union (.cons T (.cons .none .nil))) (.cons T .nil), .list T⟩
+    returnsOfFunc val (.cons (.dict .str .int) .nil) = .int ∧
+    returnsOfFunc val (.cons (.dict .str (.list .float)) .nil) = .list .float ∧
+    returnsOfFunc snd (.cons (.tuple (.cons .int (.cons .float .nil))) .nil) = .float ∧
+    returnsOfFunc inner (.cons (.list (.dict .str .float)) .nil) = .float ∧
+    returnsOfFunc valO (.cons (.dict .str .int) (.cons .int .nil)) = .int ∧
+    returnsOfFunc valO (.cons .none (.cons .int .nil)) = .int ∧
+    returnsOfFunc deep (.cons (.dict .str .bool) .nil) = .bool ∧
+    returnsOfFunc wrap (.cons .none (.cons .int .nil)) = .list .int ∧
+    returnsOfFunc wrap (.cons .str (.cons .str .nil)) = .list .str := by
+  decide +kernel
+
+/-! ## optionals -/
+
+/-- `_actualize_nullable` (traits.py:103-119): unwrapping an optional does not depend on the side `None` is written on —
+    `T | None` and `None | T` (and the inferred `None if c else e` / `e if c else None`) both unwrap to `T`. -/
+theorem nullable_order_irrelevant (a : Ty) (h : a.className ≠ s_None) :
+    stripNullable (.union (.cons a (.cons .none .nil))) = a ∧ stripNullable (.union (.cons .none (.cons a .nil))) = a := by
+  have hn : Ty.none.className = s_None := by decide
+  constructor <;> simp [stripNullable, hn, h]
+
+/-- … and so every handler that consumes its receiver through the unwrapping (subscript, slice, attribute, method call,
+    iteration) answers the same for both spellings. -/
+theorem nullable_order_handlers (ct : ClassTable) (a : Ty) (h : a.className ≠ s_None) (k lo hi : Expr) (m : Str) :
+    let l := Ty.union (.cons a (.cons .none .nil))
+    let r := Ty.union (.cons .none (.cons a .nil))
+    onIndex (stripNullable l) k = onIndex (stripNullable r) k ∧ onSlice (stripNullable l) lo hi = onSlice (stripNullable r) lo hi ∧
+    onAttr ct (stripNullable l) m = onAttr ct (stripNullable r) m ∧ iterates ct l = iterates ct r := by
+  obtain ⟨h1, h2⟩ := nullable_order_irrelevant a h
+  simp only [h1, h2, true_and]
+  unfold iterates
+  simp only [h1, h2]
+
+/-- both spellings, both ternary orders -/
+example :
+    let Γ : Env := [(['x'], .union (.cons .none (.cons (.list .int) .nil))), (['y'], .union (.cons (.list .int) (.cons .none .nil))), (['p'], .bool), (['w'], .list .int)]
+    inferT [] Γ (.index (.var ['x']) (.int 0)) = .ok .int ∧ inferT [] Γ (.index (.var ['y']) (.int 0)) = .ok .int ∧
+    inferT [] Γ (.listComp (.var ['z']) [['z']] (.var ['x']) .true_) = .ok (.list .int) ∧
+    inferT [] Γ (.tern .none_ (.var ['p']) (.var ['w'])) = inferT [] Γ (.var ['x']) ∧
+    inferT [] Γ (.index (.tern .none_ (.var ['p']) (.var ['w'])) (.int 0)) = .ok .int := by
+  decide +kernel
+
 end Tranp.C03
